@@ -125,7 +125,9 @@ fn run_case(_i: usize, mut rng: jjv::Rng) -> CaseOut {
         let disk0 = list_disk(&ws.root);
         let states0 = ws.file_states();
         let tree_before = ws.wc_tree();
+        fs_trace_start();
         let res = outcome(ws.set_sparse(&new));
+        let calls = fs_trace_stop(&ws.root);
         panicked |= res == Outcome::Panic;
         any_skip |= matches!(&res, Outcome::Ok(s) if s.skipped_files > 0);
         moved |= matches!(&res, Outcome::Ok(s) if s.added_files + s.removed_files > 0);
@@ -134,7 +136,7 @@ fn run_case(_i: usize, mut rng: jjv::Rng) -> CaseOut {
         let tree_same = ws.wc_tree().tree_ids_and_labels() == tree_before.tree_ids_and_labels();
         let snap = ws.snapshot_tracked_only().as_ref().and_then(read_tree);
         steps.push(format!(
-            "(C27Chk.mk_sstep {} {} {} {} {} {} {} {} {} {} {})",
+            "(C27Chk.mk_sstep {} {} {} {} {} {} {} {} {} {} {} {})",
             coq_tree(&cur),
             coq_paths(&old),
             coq_paths(&new),
@@ -142,6 +144,7 @@ fn run_case(_i: usize, mut rng: jjv::Rng) -> CaseOut {
             coq_states(&states0),
             coq::b(clean),
             coq_outcome(&res),
+            coq_calls(&calls),
             coq_disk(&disk1),
             coq_states(&states1),
             coq::b(tree_same),
@@ -191,6 +194,7 @@ fn main() {
     jjv::run("C27", "C27", |ctx| {
         // TestEnvironment creates its directories under TMPDIR: keep them in our scratch
         unsafe { std::env::set_var("TMPDIR", &ctx.scratch) };
+        install_fs_trace();
         let outs = par_cases(ctx, run_case);
         for (i, o) in outs {
             if o.panicked {
